@@ -61,11 +61,97 @@ def tasks(tier):
     # order1 hands the 4x4 system to augmented_matrix / gj_solve (C13): their
     # contracts for n = 4 are re-proved here
     return ['shepard', 'sph', 'splash', 'splash_norm', 'order1', 'traces',
-            'setup', 'canary', 'dep:C13:helpers:4', 'dep:C13:gj:4:1',
+            'setup', 'evaluator', 'canary', 'dep:C13:helpers:4',
+            'dep:C13:gj:4:1',
             # new points / arrays reach the compiled evaluator through
             # AccelerationEval.set_nnps / update_particle_arrays (C03) and the
             # array wrappers (C02)
             'dep:C03:forward', 'dep:C02:wrapper']
+
+
+# ---------------------------------------------------------------- evaluator
+def task_evaluator(ctx, repo):
+    """SPHEvaluator (the engine under Interpolator-like tools): evaluate(t,
+    dt) computes at (t, dt); update() refreshes the DOMAIN (cell size, box
+    wrap, ghosts) and THEN the neighbour structures -- never the other way
+    round -- and skips the domain only on request; update_particle_arrays
+    builds a new neighbour search over the new arrays (dim and radius_scale
+    of the kernel, the evaluator's domain manager), registers it with the
+    evaluator and hands the same arrays to the evaluator."""
+    me_mod = repo.module('pysph.tools.sph_evaluator')
+    W = me_mod.path
+    M = me_mod.methods('SPHEvaluator')
+    obs = []
+
+    def run(fname, args):
+        tr = []
+
+        def rec(tag):
+            return Native(lambda e, s_, a, k, n: tr.append(
+                (tag, list(a), dict(k))))
+        made = []
+
+        def factory(e, s_, a, k, n):
+            o_ = SymObject(None, dict(update=rec('new.update'),
+                                      update_domain=rec('new.update_domain')),
+                           'new_nnps')
+            made.append((list(a), dict(k), o_))
+            tr.append(('factory',))
+            return o_
+        nn = SymObject(None, dict(update=rec('nnps.update'),
+                                  update_domain=rec('nnps.update_domain')),
+                       'nnps')
+        fe = SymObject(None, dict(compute=rec('eval.compute'),
+                                  set_nnps=rec('eval.set_nnps'),
+                                  update_particle_arrays=rec('eval.update')),
+                       'func_eval')
+        kern = SymObject(None, dict(dim=z3.Int('kdim'),
+                                    radius_scale=z3.Real('krs')), 'kernel')
+        obj = SymObject('SPHEvaluator', dict(
+            nnps=nn, func_eval=fe, kernel=kern, domain_manager='DOMAIN',
+            nnps_factory=Native(factory), arrays='OLD'), 'self')
+        obj.module = me_mod.name
+        ex = Executor(repo, me_mod, qualname='SPHEvaluator.' + fname,
+                      merge=False, inline={'SPHEvaluator._create_nnps'})
+        outs = ex.exec_function(M[fname], dict(self=obj, **args))
+        ctx.function(me_mod, M[fname], 'SPHEvaluator.' + fname, ex.dropped)
+        return outs, tr, made, kern
+    try:
+        t, dt = z3.Real('t'), z3.Real('dt')
+        outs, tr, made, kern = run('evaluate', dict(t=t, dt=dt))
+        obs.append(Obligation('evaluator.evaluate', [], z3.BoolVal(
+            len(outs) == 1 and tr == [('eval.compute', [t, dt], {})]), W))
+        outs, tr, made, kern = run('update', dict(update_domain=True))
+        obs.append(Obligation('evaluator.update.domain_then_neighbours', [],
+                              z3.BoolVal(len(outs) == 1 and [x[0] for x in tr]
+                                         == ['nnps.update_domain',
+                                             'nnps.update']), W,
+                              extra=dict(trace=str([x[0] for x in tr]))))
+        outs, tr, made, kern = run('update', dict(update_domain=False))
+        obs.append(Obligation('evaluator.update.without_domain', [],
+                              z3.BoolVal(len(outs) == 1 and [x[0] for x in tr]
+                                         == ['nnps.update']), W))
+        outs, tr, made, kern = run('update_particle_arrays',
+                                   dict(arrays='NEW'))
+        ok = len(outs) == 1 and len(made) == 1
+        why = str([x[0] for x in tr])
+        if ok:
+            a_, k_, o_ = made[0]
+            ok = not a_ and k_.get('particles') == 'NEW' and \
+                k_.get('domain') == 'DOMAIN' and \
+                S.same(k_.get('dim'), kern.attrs['dim']) and \
+                S.same(k_.get('radius_scale'), kern.attrs['radius_scale'])
+            names = [x[0] for x in tr]
+            ok = ok and names == ['factory', 'eval.set_nnps', 'eval.update'] \
+                and tr[1][1] == [o_] and tr[2][1] == ['NEW'] and \
+                outs[0].state.env['self'].attrs['nnps'] is o_
+        obs.append(Obligation('evaluator.update_particle_arrays', [],
+                              z3.BoolVal(bool(ok)), W, extra=dict(why=why)))
+        ctx.function(me_mod, M['_create_nnps'], 'SPHEvaluator._create_nnps')
+    except VCError as e:
+        ctx.outside('evaluator', str(e))
+        return
+    ctx.prove('evaluator.refreshes_domain_then_neighbours', obs)
 
 
 # ------------------------------------------------------------------ helpers
@@ -260,6 +346,8 @@ def run_task(task, ctx):
     m = repo.module(MOD)
     if task == 'setup':
         return task_setup(ctx, repo, m)
+    if task == 'evaluator':
+        return task_evaluator(ctx, repo)
     if task == 'shepard':
         return task_weighted(ctx, repo, m, 'InterpolateFunction', 'shepard')
     if task == 'sph':
